@@ -82,8 +82,9 @@ int __real_open64(const char *path, int flags, ...);
 int __real_open(const char *path, int flags, ...);
 static int open_common(int is64, const char *path, int flags, mode_t mode) {
     int acc = flags & O_ACCMODE;
-    int writes = (acc != O_RDONLY) || (flags & (O_CREAT | O_TRUNC | O_APPEND));
-    int reads = (acc != O_WRONLY);
+    /* O_APPEND on a read-only descriptor writes nothing; a truncating open cannot read pre-existing data */
+    int writes = (acc != O_RDONLY) || (flags & (O_CREAT | O_TRUNC));
+    int reads = (acc != O_WRONLY) && !(flags & O_TRUNC);
     if (writes) sbx_note(JANET_SANDBOX_FS_WRITE, "open(write)", path);
     if (reads) sbx_note(JANET_SANDBOX_FS_READ, "open(read)", path);
     if (writes && sbx_deny) return deny();
@@ -102,7 +103,8 @@ FILE *__real_fopen64(const char *path, const char *mode);
 FILE *__real_fopen(const char *path, const char *mode);
 static FILE *fopen_common(int is64, const char *path, const char *mode) {
     int writes = (strchr(mode, 'w') || strchr(mode, 'a') || strchr(mode, '+'));
-    int reads = (strchr(mode, 'r') || strchr(mode, '+'));
+    /* "w+" truncates first: it cannot read pre-existing data; "r", "r+" and "a+" can */
+    int reads = (strchr(mode, 'r') || (strchr(mode, 'a') && strchr(mode, '+')));
     if (writes) sbx_note(JANET_SANDBOX_FS_WRITE, "fopen(write)", path);
     if (reads) sbx_note(JANET_SANDBOX_FS_READ, "fopen(read)", path);
     if (writes && sbx_deny) { errno = EPERM; return NULL; }
